@@ -57,6 +57,20 @@ def members(c, nodata=False):
     return re.sub(r" d=[0-9a-f-]*", "", c) if nodata else c
 
 
+def skipfail_groups(r16, simple_member, n):
+    """groups ("kinds-skipfail", lines, None): see the comment at the call"""
+    res = []
+    for j in range(n):
+        inner = simple_member(b"hidden", 3, b"abc", lv=r16.choice([0, 1, 2])) + \
+            (simple_member(b"second", 2, b"xy", lv=r16.choice([0, 1, 2])) if r16.random() < 0.5 else b"") + r16.choice([b"", b"\0"])
+        for cmd, lead in (("hdrs", b""), ("hdr", bytes(r16.randrange(1, 256) for _ in range(8)))):
+            data = lead + inner
+            decl = r16.choice([len(data) + 1, len(data) + r16.randrange(2, 40), len(data) + 1000, 70000, 2 ** 31 + 5, 2 ** 32 - 1])
+            a = r16.choice([b"", simple_member(b"first", 4, b"1234")]) + simple_member(b"outer", decl, data, lv=r16.choice([0, 1, 2]))
+            res.append(("kinds-skipfail", ["%s %s %s" % (cmd, k, a.hex()) for k in ["pipe", "cbskipstay", "cbskip", "cbnoskip", "file"]], None))
+    return res
+
+
 def run(ctx):
     rnd = random.Random(ctx.seed * 22801763 + 16)
     cb = CBuild(PID)
@@ -169,6 +183,43 @@ def run(ctx):
             a = m1 + simple_member(b"wraps", wrap - back, bytes(r16.randrange(256) for _ in range(12)), lv=lv2)
             for c in ("hdr", "hdrs"):
                 groups.append(("kinds-bigclen", ["%s %s %s" % (c, k, a.hex()) for k in KINDS], None))
+        # every skip distance 0 .. 100 and around 128, 160, 256 (the read-and-discard skips work in 32-byte pieces): a stored
+        # member of that many bytes between two others, headers only (the whole member is skipped) and after 8 bytes were read
+        for k_ in list(range(0, 101)) + [127, 128, 129, 130, 159, 160, 161, 162, 255, 256, 257, 258]:
+            a = simple_member(b"a", 3, b"abc") + simple_member(b"mid", k_, bytes((7 * i_ + k_) & 0xff or 1 for i_ in range(k_))) + simple_member(b"z", 2, b"yz") + b"\0"
+            groups.append(("kinds-skipsizes", ["hdrs %s %s" % (k, a.hex()) for k in KINDS], None))
+            a = simple_member(b"a", 3, b"abc") + simple_member(b"mid", k_ + 8, bytes((5 * i_ + k_) & 0xff or 1 for i_ in range(k_ + 8))) + simple_member(b"z", 2, b"yz") + b"\0"
+            groups.append(("kinds-skipsizes", ["hdr %s %s" % (k, a.hex()) for k in KINDS], None))
+        # long prefixes (64 KiB .. 250 KiB) of EVERY residue modulo the 24-byte window: 24 consecutive lengths at each of
+        # several places, the prefix free of '-' (constant byte, random bytes) or ordinary signature-free bytes -- the first
+        # header then falls on every position of a scan window also when whole windows were passed over before
+        for base_ in ([66000, 200000] if ctx.quick else [66000, 131072 - 12, 200000, 255 * 1024 - 24]):
+            for d_ in range(24):
+                n = base_ + d_
+                if n >= 255 * 1024:
+                    continue
+                cls = (d_ + base_) % 3
+                if cls == 0:
+                    P = bytes([r16.choice([0, 0x20, 0x90, 0xff, 0x6c])]) * n
+                elif cls == 1:
+                    P = r16.randbytes(n).replace(b"-", b"_")
+                else:
+                    P = clean_bytes(r16, n)
+                a = r16.choice(base)
+                full = P + a
+                straddle = [q for q in sig_positions(full[len(P) - 8:len(P) + 8]) if q < 8] + \
+                           [q for q in marker_positions(full[len(P) - 16:len(P) + 16]) if q < 16]
+                if sig_positions(P[:200000] + b"\0" * 7) and cls != 2:
+                    continue
+                k = r16.choice(KINDS)
+                groups.append(("prefix-long-residues", ["hdr %s %s" % (k, a.hex()), "hdr %s %s" % (k, full.hex())],
+                               "straddle" if straddle else None))
+        # a member whose data is cut short, the bytes that ARE there holding a complete, valid member: skipping the truncated
+        # member fails on every kind of stream (a seek past the end of a file succeeds, and the next header read then finds
+        # nothing), and the archive must end there for all of them -- also for a skip callback that refuses the skip
+        # without moving (kind cbskipstay), where the hidden member is still unread when the skip has failed
+        for g_ in skipfail_groups(r16, simple_member, 3 if ctx.quick else 12):
+            groups.append(g_)
         # prefixes ending in every proper prefix of a signature
         for a in rnd.sample(base, min(len(base), 6)):
             for tail in (b"-", b"-l", b"-lh", b"-lh5", b"zz-lh", b"xx-", b"-pm", b"LHA-SF", b"LhASFX V1.2"):
@@ -194,6 +245,26 @@ def run(ctx):
                 if len(ms_) != 1 or len(ds_) != 1 or ms_[0] > ds_[0]:
                     continue
                 groups.append(("decoy", ["hdr file %s" % a.hex(), "hdr file %s" % full.hex()], None))
+        # the same with the decoy FAR from the marker and the archive far from the decoy (the property sets no distance): gaps
+        # of 60 bytes .. 200 KiB, the whole prefix below 255 KiB
+        gaps1 = [61, 100, 300, 1000, 2048, 4000, 4096, 4100, 5000, 9000, 20000, 66000, 131000, 200000]
+        for j, g1 in enumerate(gaps1 if not ctx.quick else r16.sample(gaps1[:7], 4) + r16.sample(gaps1[7:], 4)):
+            a = r16.choice(base)
+            mk = MARKERS[j % 2]
+            decoy_f = hdrgen.rfields(r16, lv=r16.choice([0, 1]))
+            decoy = lb.build_header(decoy_f)[:r16.choice([21, 30, 40])]
+            if len(sig_positions(decoy + b"\0" * 7)) != 1:
+                decoy = lb.build_header({"level": 0, "method": b"-lh5-", "clen": 7, "length": 9, "time": 0x21, "attr": 0x20, "os": 0,
+                                         "crc": 0x1234, "name": b"decoy.txt"})[:30]
+            g2 = r16.choice([13, 80, 500, 5000, 30000])
+            P = clean_bytes(r16, r16.randrange(0, 200)) + mk + clean_bytes(r16, g1) + decoy + clean_bytes(r16, g2)
+            full = P + a
+            ms_ = [q for q in marker_positions(full) if q < len(P)]
+            ds_ = [q for q in sig_positions(full) if q < len(P)]
+            if len(P) >= 255 * 1024 or len(ms_) != 1 or len(ds_) != 1 or ms_[0] > ds_[0]:
+                continue
+            k_ = r16.choice(KINDS)
+            groups.append(("decoy-far", ["hdr %s %s" % (k_, a.hex()), "hdr %s %s" % (k_, full.hex())], None))
         # the known straddle witness: "zz-lh" + a level-0 archive whose checksum byte is '-'
         for crc in range(65536):
             wf = {"level": 0, "method": b"-lh0-", "clen": 3, "length": 3, "time": 0x21, "attr": 0x20, "os": 0, "crc": crc, "name": b"a"}
@@ -204,7 +275,10 @@ def run(ctx):
                 break
         lines = [l for g in groups for l in g[1]]
         co = common.run_lines_parallel([hexe], lines)
-        mo = common.run_lines_parallel([ctx.model], lines)
+        known_kind = [i for i, l in enumerate(lines) if l.split()[1] in KINDS]
+        mo = list(co)            # lines of a kind the extracted model does not have are compared across kinds only (C alone)
+        for i, m_ in zip(known_kind, common.run_lines_parallel([ctx.model], [lines[i] for i in known_kind])):
+            mo[i] = m_
         pos = 0
         nontriv = 0
         known_hits = collections.Counter()
@@ -249,11 +323,13 @@ def run(ctx):
         cov = {"evaluations": len(lines) + 2 * ntool, "distinct_nontrivial": nontriv,
                "rule": "repository and generated archives through the four stream kinds (and every truncation of small ones); prefixes of "
                        "every length 0..64 and around multiples of 12/24 and near 256 KiB made of signature-free bytes (random, alphabet "
-                       "of signature characters, constant, text), prefixes ending in every proper prefix of a signature/marker, stubs "
-                       "with marker + one decoy header; groups must yield identical member lists (C-only oracle) and every line must "
+                       "of signature characters, constant, text), 24 consecutive prefix lengths at 66000 and at 200000 bytes ('-'-free and ordinary "
+                       "signature-free bytes), prefixes ending in every proper prefix of a signature/marker, stubs "
+                       "with marker + one decoy header (decoy up to 60 bytes after the marker, and 61 bytes .. 200 KiB after it); groups must yield identical member lists (C-only oracle) and every line must "
                        "equal the model's; lha t FILE vs lha t - < FILE; members with compressed-size fields >= 2^31 (archive cut short), incl. layouts where "
                        "a skip distance wrapped to a negative number lands on a header hidden in earlier data, through the four kinds, "
-                       "reading and header-only. non-trivial = group whose reference yields a member",
+                       "reading and header-only; every skip distance 0..100 and around 128/160/256 through the four kinds; truncated members whose remaining bytes hold a complete member, through the four kinds and "
+                       "a skip callback that refuses without moving: the archive ends at the truncated member. non-trivial = group whose reference yields a member",
                "distribution": dict(dist), "samples": [groups[0][1][0][:120], groups[-1][1][1][:160]]}
         return {"violations": viol[:12], "mismatches": mism[:10], "coverage": cov,
                 "search_note": "direct oracle: member lists compared across kinds / with and without prefix on the C alone"}
